@@ -7,6 +7,7 @@ import (
 	"path/filepath"
 	"runtime"
 	"strconv"
+	"strings"
 	"time"
 
 	"verif.local/verif/simlib/plan"
@@ -97,6 +98,7 @@ func (c *checkCtx) confirm(v Violation) (bool, string) {
 		env = append(env, "GORACE=halt_on_error=1 exitcode=66")
 	case "pure":
 		bin = c.S.Pure
+		env = nil // the uncontrolled probe runs under the real runtime, all CPUs
 	}
 	if bin == "" {
 		return false, "no worker for build " + build.Build
@@ -109,10 +111,50 @@ func (c *checkCtx) confirm(v Violation) (bool, string) {
 		if docType(d) == "replay" {
 			var rep bool
 			json.Unmarshal(d["reproduced"], &rep)
+			if !rep {
+				if ok, info := c.confirmSlice(v); ok {
+					return true, info
+				}
+			}
 			return rep, string(mustMarshal(d))
 		}
 	}
 	return false, describeFailure(w)
+}
+
+// confirmSlice is the second way to replay an ordersim finding: the minimised
+// case alone did not show the difference in a fresh process, so the difference
+// depends on what the finding process had done before. The worker is seeded, so
+// executing the same slice of cases up to the failing index again, in a fresh
+// process, must find the same violation at the same index.
+func (c *checkCtx) confirmSlice(v Violation) (bool, string) {
+	var doc struct {
+		Seed  uint64 `json:"seed"`
+		Slice *struct {
+			From   int    `json:"from"`
+			Stride int    `json:"stride"`
+			Index  int    `json:"index"`
+			Tier   string `json:"tier"`
+		} `json:"process_slice"`
+	}
+	if json.Unmarshal(v.Replay, &doc) != nil || doc.Slice == nil || doc.Slice.Stride <= 0 {
+		return false, ""
+	}
+	sl := doc.Slice
+	args := []string{"c14", "-seed", strconv.FormatUint(doc.Seed, 10), "-from", strconv.Itoa(sl.From), "-to", strconv.Itoa(sl.Index + 1),
+		"-stride", strconv.Itoa(sl.Stride), "-tier", sl.Tier, "-k", "0"}
+	w := runWorker(c.S.Plain, args, []string{"GOMAXPROCS=1"}, 45*time.Minute)
+	for _, d := range w.Docs {
+		if docType(d) != "violation" {
+			continue
+		}
+		var got Violation
+		json.Unmarshal(mustMarshal(d), &got)
+		if got.Key == v.Key && got.Index == sl.Index {
+			return true, fmt.Sprintf("reproduced by re-executing the seeded slice of cases (worker %s) in a fresh process: %s", strings.Join(args, " "), got.Detail)
+		}
+	}
+	return false, "the seeded slice did not reproduce it either"
 }
 
 func mustMarshal(v interface{}) []byte {
